@@ -533,6 +533,77 @@ func TestHostileNames(t *testing.T) {
 	})
 }
 
+// ---- unit: exchange-docs ---------------------------------------------------------------------
+// Documents of the exchange profile (parameters of every admitted style cell and shape, JSON
+// bodies, response codes / patterns / default with headers, formats, validators, defaults,
+// descriptions), decorated at random with a bearer security requirement on every operation and with
+// ONE operation that the generator has to skip (a sum-typed parameter, not implemented), under the
+// named feature configurations: whatever is generated must compile.
+
+type exchangeBatch struct {
+	Items []Case `json:"items"`
+}
+
+func drawExchange(t *rapid.T) exchangeBatch {
+	var b exchangeBatch
+	cfgs := namedConfigs()
+	for i := 0; i < 10; i++ {
+		d := specgen.GenExchangeDoc(t, specgen.ExchangeOptions{Formats: rapid.Bool().Draw(t, "formats"), TimeFormat: "date-time",
+			Validators: rapid.Bool().Draw(t, "validators"), Defaults: rapid.Bool().Draw(t, "defaults"), Docs: rapid.Bool().Draw(t, "docs"), SharedParamObjects: true})
+		m := d.RenderMap()
+		paths, _ := m["paths"].(map[string]any)
+		var keys []string
+		for k := range paths {
+			keys = append(keys, k)
+		}
+		sort.Strings(keys)
+		if rapid.Bool().Draw(t, "security") {
+			comps, _ := m["components"].(map[string]any)
+			if comps == nil {
+				comps = map[string]any{}
+				m["components"] = comps
+			}
+			comps["securitySchemes"] = map[string]any{"bearerAuth": map[string]any{"type": "http", "scheme": "bearer"}, "key": map[string]any{"type": "apiKey", "in": "header", "name": "X-Key"}}
+			m["security"] = []any{map[string]any{"bearerAuth": []any{}}, map[string]any{"key": []any{}}}
+		}
+		if len(keys) > 0 && rapid.Bool().Draw(t, "skipone") {
+			// the operation that comes first in the document cannot be generated
+			which := keys[0]
+			if rapid.IntRange(0, 2).Draw(t, "skipwhich") == 0 {
+				which = keys[rapid.IntRange(0, len(keys)-1).Draw(t, "skipidx")]
+			}
+			item, _ := paths[which].(map[string]any)
+			for _, mth := range []string{"get", "post", "put", "delete", "patch"} {
+				if op, ok := item[mth].(map[string]any); ok {
+					ps, _ := op["parameters"].([]any)
+					op["parameters"] = append(ps, map[string]any{"name": "zsum", "in": "query", "schema": map[string]any{"oneOf": []any{map[string]any{"type": "string"}, map[string]any{"type": "integer"}}}})
+				}
+			}
+		}
+		text, _ := jsonMarshal(m)
+		b.Items = append(b.Items, Case{Name: fmt.Sprintf("exchange%d", i), Spec: string(text), Config: cfgs[rapid.IntRange(0, len(cfgs)-1).Draw(t, "config")]})
+	}
+	return b
+}
+
+func TestExchangeDocs(t *testing.T) {
+	u := vk.New(t, "C02", "exchange-docs")
+	defer u.Close()
+	if c, ok := vk.ReplayOnly[Case](u); ok {
+		runItems(u, "replay", []Case{c}, nil)
+		return
+	}
+	if vk.InReplay() {
+		return
+	}
+	n := 0
+	vk.Rapid(u, vk.N(8, 200), nil, drawExchange, func(eb exchangeBatch) *vk.Finding {
+		n++
+		runItems(u, fmt.Sprintf("x%d", n), eb.Items, func(c Case) string { return c.Name })
+		return nil
+	})
+}
+
 func TestReplayCorpus(t *testing.T) {
 	u := vk.New(t, "C02", "corpus-features-replay")
 	defer u.Close()
